@@ -45,3 +45,10 @@ Lemma run_loops_terminate :
   map fst run_loop_handled = ["run_as_initiator"; "run_as_target"] /\
   forallb (fun e => forallb (fun c => existsb (String.eqb c) (snd e)) required_handled) run_loop_handled = true.
 Proof. vm_compute. split; reflexivity. Qed.
+
+(* terminate(): the loop over ALL service access points (63..0, including access point 1 that bind() tests)
+   lies inside one `with self.lock`, and link.SHUTDOWN is set after it (the extractor accepts no other shape) *)
+Lemma terminate_one_critical_section :
+  terminate_nesting = ["with self.lock"; "for i in range(63,-1,-1)"; "self.sap[i].shutdown()"; "self.sap[i] = None";
+                       "self.link.SHUTDOWN = True"].
+Proof. vm_compute. reflexivity. Qed.
